@@ -2,6 +2,7 @@
 Key tables of every header_to_tuple, enum value tables, budget constants of send(); the control
 flow around them is compared structurally (fail-closed)."""
 import ast
+import os
 
 from gen_tables import (HEADER, ExtractError, body_nodoc, coq_bytes, coq_list, dump_eq, expect, extractor, find_assign,
                         find_class, find_func, parse)
@@ -242,40 +243,59 @@ def get_raw_payload(self) -> Optional[bytes]:
     expect(not any(isinstance(n, ast.FunctionDef) and n.name in ("get_raw_payload", "get_encoded_payload", "content_to_bytes", "header_to_bytes") for n in dc.body), "DeleteCommand overrides serialisation")
     expect(not any(isinstance(n, ast.FunctionDef) and n.name in ("get_encoded_payload", "content_to_bytes", "header_to_bytes", "to_bytes", "send") for c in (tc, mc) for n in c.body), "Transmit/MoreData override serialisation")
 
-    # ---- send(): budget constants and shape
-    fn = find_func(base, "send")
-    b = body_nodoc(fn)
-    expect(len(b) == 7, f"GraphicsCommand.send: statements ({len(b)})")
-    dump_eq(b[0], "if max_size is None:\n    max_size = select.PIPE_BUF", "send: default max_size")
-    dump_eq(b[1], "out.flush()", "send: initial flush")
-    dump_eq(b[2], '''
-if not isinstance(self, TransmitCommand):
-    out.write(template % self.content_to_bytes())
-    out.flush()
-    if callback is not None:
-        callback(self)
-    return
-''', "send: non-transmit branch")
-    h = match_holes(b[3], "max_base64_payload_size = (max_size - len(template) - len(self.header_to_bytes()) - HOLE_reserve)", "send: budget")
-    reserve = h["reserve"]
-    expect(isinstance(reserve, ast.Constant) and isinstance(reserve.value, int), "send: reserve constant")
-    h = match_holes(b[4], "max_payload_size = (max_base64_payload_size // HOLE_q) * HOLE_r", "send: payload size")
-    q, r = h["q"], h["r"]
-    expect(isinstance(q, ast.Constant) and isinstance(r, ast.Constant), "send: quantum constants")
-    iff = b[5]
-    expect(isinstance(iff, ast.If) and not iff.orelse and len(iff.body) == 1 and isinstance(iff.body[0], ast.Raise), "send: too-small check")
-    h = match_holes(iff.test, "max_payload_size < HOLE_m", "send: too-small test")
-    m = h["m"]
-    expect(isinstance(m, ast.Constant) and isinstance(m.value, int), "send: minimum constant")
-    expect(isinstance(iff.body[0].exc, ast.Call) and ast.unparse(iff.body[0].exc.func) == "ValueError", "send: raises ValueError")
-    dump_eq(b[6], '''
-for cmd in self.split(max_payload_size=max_payload_size):
-    out.write(template % cmd.content_to_bytes())
-    out.flush()
-    if callback is not None:
-        callback(cmd)
-''', "send: chunk loop")
-    t += f"Definition send_reserve : Z := {reserve.value}%Z.\nDefinition send_b64_quantum : Z := {q.value}%Z.\nDefinition send_raw_quantum : Z := {r.value}%Z.\nDefinition send_min_payload : Z := {m.value}%Z.\n"
+    # ---- send(): budget constants and shape.  send() is also TRANSLATED (harness/gen_sendtrans.py -> Gen/SendTr.v) and
+    # Props/C05tr.v proves the model equal to its translation, so a rewrite of send() that this pin does not recognise is
+    # accepted iff that proof still checks (soft tie); the four constants then come from the last validated table — the
+    # proof is about the model with exactly those, and the translated term carries the source's own.
+    def pin_send(t):
+        fn = find_func(base, "send")
+        b = body_nodoc(fn)
+        expect(len(b) == 7, f"GraphicsCommand.send: statements ({len(b)})")
+        dump_eq(b[0], "if max_size is None:\n    max_size = select.PIPE_BUF", "send: default max_size")
+        dump_eq(b[1], "out.flush()", "send: initial flush")
+        dump_eq(b[2], '''
+    if not isinstance(self, TransmitCommand):
+        out.write(template % self.content_to_bytes())
+        out.flush()
+        if callback is not None:
+            callback(self)
+        return
+    ''', "send: non-transmit branch")
+        h = match_holes(b[3], "max_base64_payload_size = (max_size - len(template) - len(self.header_to_bytes()) - HOLE_reserve)", "send: budget")
+        reserve = h["reserve"]
+        expect(isinstance(reserve, ast.Constant) and isinstance(reserve.value, int), "send: reserve constant")
+        h = match_holes(b[4], "max_payload_size = (max_base64_payload_size // HOLE_q) * HOLE_r", "send: payload size")
+        q, r = h["q"], h["r"]
+        expect(isinstance(q, ast.Constant) and isinstance(r, ast.Constant), "send: quantum constants")
+        iff = b[5]
+        expect(isinstance(iff, ast.If) and not iff.orelse and len(iff.body) == 1 and isinstance(iff.body[0], ast.Raise), "send: too-small check")
+        h = match_holes(iff.test, "max_payload_size < HOLE_m", "send: too-small test")
+        m = h["m"]
+        expect(isinstance(m, ast.Constant) and isinstance(m.value, int), "send: minimum constant")
+        expect(isinstance(iff.body[0].exc, ast.Call) and ast.unparse(iff.body[0].exc.func) == "ValueError", "send: raises ValueError")
+        dump_eq(b[6], '''
+    for cmd in self.split(max_payload_size=max_payload_size):
+        out.write(template % cmd.content_to_bytes())
+        out.flush()
+        if callback is not None:
+            callback(cmd)
+    ''', "send: chunk loop")
+        t += f"Definition send_reserve : Z := {reserve.value}%Z.\nDefinition send_b64_quantum : Z := {q.value}%Z.\nDefinition send_raw_quantum : Z := {r.value}%Z.\nDefinition send_min_payload : Z := {m.value}%Z.\n"
+        return t
+    try:
+        t = pin_send(t)
+    except ExtractError as e:
+        import re as _re
+        import gen_tables as _gt
+        golden_path = os.path.join(os.path.dirname(os.path.dirname(os.path.abspath(__file__))), "coq", "GenGolden", "CommandGen.v")
+        with open(golden_path) as f:
+            gold = f.read()
+        for name in ("send_reserve", "send_b64_quantum", "send_raw_quantum", "send_min_payload"):
+            m = _re.search(r"Definition %s : Z := (-?\d+)%%Z\." % name, gold)
+            expect(m is not None, f"{e}  (and no validated value for {name})")
+            t += f"Definition {name} : Z := {m.group(1)}%Z.\n"
+        t += "(* send() was rewritten: " + str(e).splitlines()[0][:160].replace("*)", "* )") + " — covered by Props/C05tr.v *)\n"
+        _gt.SOFT.append(("gen_commands", "Props/C05tr.v", ["GraphicsCommand.send"]))
 
     # ---- split(): which media are split.  Two accepted shapes: the original guard and the repaired one.
     fn = find_func(tc, "split")
